@@ -855,4 +855,246 @@ theorem run_kids : (ns : List Node) → ∀ (f : Frame) (fs : List Frame) (pos :
     simp
 end
 
+/-! ### typed children and containers (`VNode`) -/
+
+/-- raw characters that neither RCDATA nor the data state reacts to -/
+theorem run_inert (s : Str) : ∀ (f : Frame) (fs : List Frame), escMode (f :: fs) → titleInert s = true →
+    run ⟨.text, f :: fs⟩ s = some ⟨.text, { f with kidsRev := pushStrKids s f.kidsRev } :: fs⟩ := by
+  induction s with
+  | nil => intro f fs _ _; simp [run, pushStrKids]
+  | cons c cs ih =>
+    intro f fs hm h
+    simp only [titleInert, List.all_cons, Bool.and_eq_true, bne_iff_ne, ne_eq] at h
+    obtain ⟨⟨⟨⟨h0, hr⟩, hl⟩, ha⟩, hcs⟩ := h
+    have hm' : escMode ({ f with kidsRev := pushCharKids c f.kidsRev } :: fs) := hm
+    simp only [run, step_text_plain hm h0 hr ha hl, pushStrKids]
+    exact ih _ fs hm' (by simpa [titleInert] using hcs)
+
+def vTitleKids : List VNode → Bool
+  | [.text s] => clean s
+  | _ => false
+
+mutual
+/-- prints nothing (under escape mode `esc`): nested empty tuples/arrays; without escaping also `Vec`s and
+`()`/`None` that contain nothing else -/
+def vBlank (esc : Bool) : VNode → Bool
+  | .seq ks => vBlankKids esc ks
+  | .vec ks => !esc && vBlankKids esc ks
+  | .unit => !esc
+  | _ => false
+def vBlankKids (esc : Bool) : List VNode → Bool
+  | [] => true
+  | n :: ns => vBlank esc n && vBlankKids esc ns
+end
+
+mutual
+theorem vBlank_facts : (n : VNode) → ∀ (esc : Bool) (pos : Pos), vBlank esc n = true →
+    vHtml esc pos n = [] ∧ vPos esc pos n = pos ∧ vRawText n = [] ∧ (esc = true → vStruct pos n = [])
+  | .text _, _, _, h => by simp [vBlank] at h
+  | .prim _, _, _, h => by simp [vBlank] at h
+  | .elem .., _, _, h => by simp [vBlank] at h
+  | .seq ks, esc, pos, h => by
+    have := vBlankKids_facts ks esc pos (by simpa [vBlank] using h)
+    simpa [vHtml, vPos, vRawText, vStruct] using this
+  | .vec ks, esc, pos, h => by
+    simp only [vBlank, Bool.and_eq_true, Bool.not_eq_true'] at h
+    obtain ⟨he, hk⟩ := h
+    subst he
+    have := vBlankKids_facts ks false pos hk
+    simpa [vHtml, vPos, vRawText, markerIf] using this
+  | .unit, esc, pos, h => by
+    have he : esc = false := by simpa [vBlank] using h
+    subst he
+    simp [vHtml, vPos, vRawText, markerIf]
+theorem vBlankKids_facts : (ns : List VNode) → ∀ (esc : Bool) (pos : Pos), vBlankKids esc ns = true →
+    vKidsHtml esc pos ns = [] ∧ vKidsPos esc pos ns = pos ∧ vRawTextKids ns = [] ∧
+      (esc = true → vStructKids pos ns = [])
+  | [], _, _, _ => by simp [vKidsHtml, vKidsPos, vRawTextKids, vStructKids]
+  | n :: ns, esc, pos, h => by
+    simp only [vBlankKids, Bool.and_eq_true] at h
+    obtain ⟨a1, a2, a3, a4⟩ := vBlank_facts n esc pos h.1
+    obtain ⟨b1, b2, b3, b4⟩ := vBlankKids_facts ns esc pos h.2
+    refine ⟨by simp [vKidsHtml, a1, a2, b1], by simp [vKidsPos, a2, b2], by simp [vRawTextKids, a3, b3], ?_⟩
+    intro he
+    subst he
+    simp [vStructKids, a4 rfl, a2, b4 rfl]
+end
+
+mutual
+/-- `wfNode` for the extended views: strings of any string type in text positions; primitives whose
+`Display` text has no `<`/`&`/NUL/CR (every number, `bool`, address; a `char` other than those);
+tuples / arrays / `StaticVec` / `Fragment` (`seq`), `Vec` (`vec`), `()` / `None` (`unit`) anywhere a
+child may stand in an escaping element. -/
+def vwfNode (anc : List Str) : VNode → Bool
+  | .text s => clean s
+  | .prim s => s != [] && titleInert s
+  | .elem tag attrs kids =>
+    attrsOK attrs && nestOK tag anc &&
+      ((genericOK tag && vwfKids (tag :: anc) kids) || (voidOK tag && kids.isEmpty) ||
+       (rawLike tag && vBlankKids (escapeChildren tag) kids) || (tag = tTitle && vTitleKids kids))
+  | .seq ks => vwfKids anc ks
+  | .vec ks => vwfKids anc ks
+  | .unit => true
+def vwfKids (anc : List Str) : List VNode → Bool
+  | [] => true
+  | n :: ns => vwfNode anc n && vwfKids anc ns
+end
+
+theorem headIsText_false_of {pos : Pos} {k : List Tree} (hp : pos = .afterText ↔ headIsText k = true)
+    (ha : ¬ pos = .afterText) : headIsText k = false := by
+  cases h : headIsText k with
+  | false => rfl
+  | true => exact absurd (hp.mpr h) ha
+
+mutual
+theorem run_vnode : (n : VNode) → ∀ (f : Frame) (fs : List Frame) (pos : Pos),
+    vwfNode ((f :: fs).map (·.tag)) n = true → modeOfTag f.tag = .data →
+    (pos = .afterText ↔ headIsText f.kidsRev = true) →
+    run ⟨.text, f :: fs⟩ (vHtml true pos n) =
+      some ⟨.text, { f with kidsRev := (vStruct pos n).reverse ++ f.kidsRev } :: fs⟩ ∧
+    (vPos true pos n = .afterText ↔ headIsText ((vStruct pos n).reverse ++ f.kidsRev) = true)
+  | .text s, f, fs, pos, hw, hm, hp => by
+    have hs : clean s = true := by simpa [vwfNode] using hw
+    have hm' : curMode (f :: fs) = .data := hm
+    refine ⟨?_, by simp [vPos, vStruct, headIsText]⟩
+    simp only [vHtml, textHtml, vStruct, if_true]
+    by_cases ha : pos = .afterText
+    · simp only [ha, if_true]
+      rw [run_append, run_marker hm', Option.bind_some]
+      have := run_textBody (f := { f with kidsRev := .comment [] :: f.kidsRev }) (fs := fs) (Or.inl hm) s hs rfl
+      simp only [this]
+      simp
+    · have hk := headIsText_false_of hp ha
+      simp only [ha, if_false, List.nil_append]
+      rw [run_textBody (Or.inl hm') s hs hk]
+      simp
+  | .prim s, f, fs, pos, hw, hm, hp => by
+    simp only [vwfNode, Bool.and_eq_true, bne_iff_ne, ne_eq] at hw
+    obtain ⟨hne, hin⟩ := hw
+    have hm' : curMode (f :: fs) = .data := hm
+    have htt : textTree s = [.text s] := by simp [textTree, hne]
+    refine ⟨?_, by simp [vPos, vStruct, htt, headIsText]⟩
+    simp only [vHtml, vStruct, markerIf, htt]
+    by_cases ha : pos = .afterText
+    · simp only [ha, decide_true, if_true]
+      rw [run_append, run_marker hm', Option.bind_some,
+        run_inert s { f with kidsRev := .comment [] :: f.kidsRev } fs (Or.inl hm) hin,
+        pushStrKids_fresh s _ hne rfl]
+      simp
+    · have hk := headIsText_false_of hp ha
+      simp only [ha, decide_false, if_false, List.nil_append, Bool.false_eq_true]
+      rw [run_inert s f fs (Or.inl hm') hin, pushStrKids_fresh s _ hne hk]
+      simp
+  | .elem tag attrs kids, f, fs, pos, hw, hm, _ => by
+    have hm' : curMode (f :: fs) = .data := hm
+    refine ⟨?_, by simp [vPos, vStruct, headIsText]⟩
+    simp only [vwfNode, Bool.and_eq_true, Bool.or_eq_true] at hw
+    obtain ⟨⟨hattrs, hnest⟩, hcase⟩ := hw
+    have hnest' : nestOK tag (f.tag :: List.map (fun x => x.tag) fs) = true := by simpa using hnest
+    have hinner : innerBuf attrs = [] := by
+      simp only [attrsOK, Bool.and_eq_true] at hattrs
+      exact innerBuf_nil attrs hattrs.1
+    rcases hcase with ((⟨hg, hkids⟩ | ⟨hv, hempty⟩) | ⟨hraw, hempty⟩) | ⟨htitle, htk⟩
+    · simp only [genericOK, Bool.and_eq_true, decide_eq_true_eq, Bool.not_eq_true', bne_iff_ne, ne_eq] at hg
+      obtain ⟨⟨⟨⟨hkind, hnv⟩, hesc⟩, hchars⟩, hnta⟩ := hg
+      have hstart : emitStart ⟨tag, expectedAttrs attrs⟩ false (f :: fs) =
+          some ⟨.text, ⟨tag, expectedAttrs attrs, []⟩ :: f :: fs⟩ := by
+        simp only [emitStart]
+        simp [hnest', hkind, hnta]
+      have hopen := run_startTag (st := f :: fs) hm' hchars hattrs
+      have hmk : modeOfTag tag = .data := modeOfTag_generic hkind
+      have ih := (run_vkids kids ⟨tag, expectedAttrs attrs, []⟩ (f :: fs) .firstChild hkids hmk
+        (by simp [headIsText])).1
+      have hclose : run ⟨.text, ⟨tag, expectedAttrs attrs, (vStructKids .firstChild kids).reverse ++ []⟩ :: f :: fs⟩
+          ('<' :: '/' :: tag ++ ['>']) =
+          some ⟨.text, { f with kidsRev := .elem tag (expectedAttrs attrs) (vStructKids .firstChild kids) :: f.kidsRev } :: fs⟩ := by
+        rw [run_endTag (by exact hmk) hchars]
+        simp [emitEnd]
+      have e : vHtml true pos (.elem tag attrs kids) =
+          ('<' :: tag ++ attrsHtml attrs ++ ['>']) ++ (vKidsHtml true .firstChild kids ++ ('<' :: '/' :: tag ++ ['>'])) := by
+        simp [vHtml, hnv, hinner, hesc]
+      rw [e, run_append, hopen, hstart, Option.bind_some, run_append, ih, Option.bind_some, hclose]
+      simp [vStruct, hnv, hinner, hesc]
+    · simp only [voidOK, Bool.and_eq_true, decide_eq_true_eq] at hv
+      obtain ⟨⟨hkind, hisv⟩, hchars⟩ := hv
+      have hstart : emitStart ⟨tag, expectedAttrs attrs⟩ false (f :: fs) =
+          some ⟨.text, { f with kidsRev := .elem tag (expectedAttrs attrs) [] :: f.kidsRev } :: fs⟩ := by
+        simp only [emitStart]
+        simp [hnest', hkind, pushTree]
+      have hopen := run_startTag (st := f :: fs) hm' hchars hattrs
+      have e : vHtml true pos (.elem tag attrs kids) = ('<' :: tag ++ attrsHtml attrs ++ ['>']) := by
+        simp [vHtml, hisv]
+      rw [e, hopen, hstart]
+      simp [vStruct, hisv]
+    · obtain ⟨hb1, _, hb3, hb4⟩ := vBlankKids_facts kids (escapeChildren tag) .firstChild hempty
+      obtain ⟨hnv, hchars, _, _⟩ := rawLike_facts hraw
+      obtain ⟨tok, htok, hstart⟩ := emitStart_raw hraw (expectedAttrs attrs) (f :: fs) hnest
+      have hopen := run_startTag (st := f :: fs) hm' hchars hattrs
+      have hclose := run_rawEnd hraw tok htok ⟨tag, expectedAttrs attrs, []⟩ f fs rfl
+      have e : vHtml true pos (.elem tag attrs kids) =
+          ('<' :: tag ++ attrsHtml attrs ++ ['>']) ++ ('<' :: '/' :: tag ++ ['>']) := by
+        simp [vHtml, hnv, hinner, hb1]
+      have hk : (if escapeChildren tag = true then vStructKids .firstChild kids
+          else textTree (vRawTextKids kids)) = [] := by
+        split
+        · next he => exact hb4 he
+        · simp [hb3, textTree]
+      rw [e, run_append, hopen, hstart, Option.bind_some, hclose]
+      simp [vStruct, hnv, hinner, hk]
+    · simp only [decide_eq_true_eq] at htitle
+      subst htitle
+      match kids, htk with
+      | [.text s], htk =>
+        have hs : clean s = true := by simpa [vTitleKids] using htk
+        have hraw : rawLike tTitle = true := by decide
+        obtain ⟨hnv, hchars, _, _⟩ := rawLike_facts hraw
+        have hstart : emitStart ⟨tTitle, expectedAttrs attrs⟩ false (f :: fs) =
+            some ⟨.text, ⟨tTitle, expectedAttrs attrs, []⟩ :: f :: fs⟩ := by
+          simp only [emitStart]
+          simp [hnest', show tTitle ≠ tTextarea from by decide]
+        have hopen := run_startTag (st := f :: fs) hm' hchars hattrs
+        have hbody := run_textBody (f := ⟨tTitle, expectedAttrs attrs, []⟩) (fs := f :: fs)
+          (Or.inr (show modeOfTag tTitle = .rcdata from by decide)) s hs rfl
+        have hclose := run_rawEnd hraw .text (Or.inl rfl)
+          ⟨tTitle, expectedAttrs attrs, [.text (if s = [] then [' '] else s)]⟩ f fs rfl
+        have e : vHtml true pos (.elem tTitle attrs [.text s]) =
+            ('<' :: tTitle ++ attrsHtml attrs ++ ['>']) ++
+              ((if s = [] then [' '] else escapeText s) ++ ('<' :: '/' :: tTitle ++ ['>'])) := by
+          simp [vHtml, hnv, hinner, show escapeChildren tTitle = true from by decide, vKidsHtml, textHtml]
+        rw [e, run_append, hopen, hstart, Option.bind_some, run_append, hbody, Option.bind_some, hclose]
+        simp [vStruct, hnv, hinner, show escapeChildren tTitle = true from by decide, vStructKids]
+  | .seq ks, f, fs, pos, hw, hm, hp => by
+    have hw' : vwfKids ((f :: fs).map (·.tag)) ks = true := by simpa [vwfNode] using hw
+    simpa [vHtml, vStruct, vPos] using run_vkids ks f fs pos hw' hm hp
+  | .vec ks, f, fs, pos, hw, hm, hp => by
+    have hw' : vwfKids ((f :: fs).map (·.tag)) ks = true := by simpa [vwfNode] using hw
+    have h := (run_vkids ks f fs pos hw' hm hp).1
+    refine ⟨?_, by simp [vPos, vStruct, headIsText]⟩
+    simp only [vHtml, markerIf, if_true, vStruct]
+    rw [run_append, h, Option.bind_some,
+      run_marker (f := { f with kidsRev := (vStructKids pos ks).reverse ++ f.kidsRev }) (fs := fs) hm]
+    simp
+  | .unit, f, fs, pos, _, hm, _ => by
+    refine ⟨?_, by simp [vPos, vStruct, headIsText]⟩
+    simp only [vHtml, markerIf, if_true, vStruct]
+    rw [run_marker (f := f) (fs := fs) hm]
+    simp
+theorem run_vkids : (ns : List VNode) → ∀ (f : Frame) (fs : List Frame) (pos : Pos),
+    vwfKids ((f :: fs).map (·.tag)) ns = true → modeOfTag f.tag = .data →
+    (pos = .afterText ↔ headIsText f.kidsRev = true) →
+    run ⟨.text, f :: fs⟩ (vKidsHtml true pos ns) =
+      some ⟨.text, { f with kidsRev := (vStructKids pos ns).reverse ++ f.kidsRev } :: fs⟩ ∧
+    (vKidsPos true pos ns = .afterText ↔ headIsText ((vStructKids pos ns).reverse ++ f.kidsRev) = true)
+  | [], f, fs, pos, _, _, hp => by simpa [vKidsHtml, vStructKids, run, vKidsPos] using hp
+  | n :: ns, f, fs, pos, hw, hm, hp => by
+    simp only [vwfKids, Bool.and_eq_true] at hw
+    have h1 := run_vnode n f fs pos hw.1 hm hp
+    have h2 := run_vkids ns { f with kidsRev := (vStruct pos n).reverse ++ f.kidsRev } fs (vPos true pos n)
+      hw.2 hm h1.2
+    refine ⟨?_, ?_⟩
+    · simp only [vKidsHtml, run_append, h1.1, Option.bind_some, h2.1, vStructKids]
+      simp
+    · simpa [vKidsPos, vStructKids] using h2.2
+end
+
 end Leptos.Html
